@@ -357,8 +357,8 @@ pub fn gen_c14(seed: u64, thorough: bool, only: Option<u64>, out: &mut Out) {
     }
     let mut r = Prng::for_case(seed, "C14", hi);
     // (the last two: tags configured out of order, and a tag listed twice)
-    let tagsets: [&[u8]; 7] = [&[0, 1], &[0, 255], &[2, 6], &[0, 1, 2, 3, 4, 128, 254, 255], &[7], &[9, 7, 3], &[3, 4, 3, 5]];
-    let mds: Vec<u8> = tagsets[(hi % 7) as usize].to_vec();
+    let tagsets: [&[u8]; 8] = [&[0, 1], &[0, 255], &[2, 6], &[0, 1, 2, 3, 4, 128, 254, 255], &[7], &[9, 7, 3], &[3, 4, 3, 5], &[5, 37, 200, 232, 69]];
+    let mds: Vec<u8> = tagsets[(hi % 8) as usize].to_vec();
     let (mut w, head) = World::new(&mds);
     let inputs: Vec<Vec<u8>> = vec![b"some_test_input".to_vec(), vec![], r.bytes(200)];
     let pts: Vec<Vec<u8>> = inputs.iter().map(|i| blind(i).0).collect();
@@ -370,7 +370,7 @@ pub fn gen_c14(seed: u64, thorough: bool, only: Option<u64>, out: &mut Out) {
       p
     };
     // a tag listed twice is punctured once and must be gone; tags listed out of order answer under their own keys
-    if hi % 7 >= 5 {
+    if hi % 8 >= 5 {
       for &md in &mds {
         w.eval(0, md, &pts[0], true);
       }
@@ -564,6 +564,32 @@ pub fn gen_c12(seed: u64, thorough: bool, only: Option<u64>, out: &mut Out) {
           if ub2.as_bytes() != ub.as_bytes() {
             verdict = Err(format!("unblinding with the blinding scalar restored from its 32 bytes gives another point (tag {})", md));
           }
+          // ... also from a non-canonical byte string for the same scalar (r + 8*l: top bit set), and the SAME scalar
+          // value used for a second answer (the answer under verifiable mode) unblinds that one correctly too
+          {
+            let ell: [u8; 32] = [0xed, 0xd3, 0xf5, 0x5c, 0x1a, 0x63, 0x12, 0x58, 0xd6, 0x9c, 0xf7, 0xa2, 0xde, 0xf9, 0xde, 0x14, 0, 0, 0, 0, 0, 0, 0, 0, 0, 0, 0, 0, 0, 0, 0, 0x10];
+            let mut big = rs.to_bytes();
+            for _ in 0..8 {
+              let mut carry = 0u16;
+              for i in 0..32 {
+                let v = big[i] as u16 + ell[i] as u16 + carry;
+                big[i] = v as u8;
+                carry = v >> 8;
+              }
+            }
+            if big[31] & 0x80 != 0 {
+              let ub3 = Client::unblind(&ev.output, &CurveScalar::from(big));
+              if ub3.as_bytes() != ub.as_bytes() {
+                verdict = Err(format!("unblinding with the blinding scalar given as the 32 bytes of r + 8*l gives another point (tag {})", md));
+              }
+            }
+            let keep = CurveScalar::from(rs);
+            let first = Client::unblind(&ev.output, &keep);
+            let second = Client::unblind(&ev.output, &keep);
+            if first.as_bytes() != ub.as_bytes() || second.as_bytes() != ub.as_bytes() {
+              verdict = Err(format!("one blinding scalar used to unblind two answers gives different points (tag {})", md));
+            }
+          }
           let direct = w.eval(0, md, &h, false).map(|e| e.output.as_bytes().to_vec());
           if direct.as_deref() != Some(&ub.as_bytes()[..]) {
             verdict = Err(format!("unblinded result differs from the evaluation of the unblinded point (tag {}, request {})", md, rep));
@@ -733,6 +759,12 @@ pub fn gen_c13(seed: u64, thorough: bool, only: Option<u64>, out: &mut Out) {
       w.eval(0, md, &b, true);
     }
     w.threaded_proofs(0, md, &b, 4, 3);
+    // a copy of the server issues proofs as well: its commitments are new, too
+    w.clone_inst(0);
+    for _ in 0..2 {
+      w.eval(1, md, &b, true);
+      w.eval(0, md, &b, true);
+    }
     let pk = w.servers[0].get_public_key();
     let pkb = pk.serialize_to_bincode().unwrap();
     let pk2b = w2.servers[0].get_public_key().serialize_to_bincode().unwrap();
